@@ -2,7 +2,7 @@
 //! replay file and re-checked; evidence is aggregated from what the runs actually did.
 
 use super::rng::{run_seed, Rng};
-use super::run::RunOut;
+use super::run::{RunCfg, RunOut};
 use serde::{de::DeserializeOwned, Deserialize, Serialize};
 use serde_json::{json, Value};
 use std::collections::{BTreeMap, BTreeSet, HashSet};
@@ -51,8 +51,33 @@ pub trait Family: Sync + Send + 'static {
   /// what makes a run non-trivial / distinct, for the evidence file
   fn rule(&self) -> &'static str;
   fn generate(&self, rng: &mut Rng) -> Self::Sc;
-  /// Execute on the current (fresh) OS thread and evaluate all oracles.
-  fn run(&self, sc: &Self::Sc, record_trace: bool) -> Evaluated;
+  /// Whether each run needs a fresh OS thread (std caches `RandomState` keys per thread, so
+  /// families whose code iterates std hash maps must say yes to stay deterministic). Families
+  /// that say no run as sessions on a reused thread, which reuses the coroutine stacks.
+  fn needs_fresh_thread(&self) -> bool {
+    true
+  }
+  fn max_steps(&self) -> usize {
+    200_000
+  }
+  fn stack_size(&self) -> usize {
+    0x20000
+  }
+  /// Install the scenario as the current run of this OS thread and return the run knobs.
+  fn begin(&self, sc: &Self::Sc, record_trace: bool) -> RunCfg;
+  /// The simulated main thread; reads the scenario installed by `begin`.
+  fn body(&self) -> Arc<dyn Fn() + Send + Sync>;
+  /// Collect the history of the finished run and evaluate all oracles.
+  fn finish(&self, sc: &Self::Sc, out: RunOut) -> Evaluated;
+  /// Execute one scenario on the current OS thread.
+  fn run(&self, sc: &Self::Sc, record_trace: bool) -> Evaluated {
+    let mut cfg = self.begin(sc, record_trace);
+    cfg.max_steps = self.max_steps();
+    cfg.stack_size = self.stack_size();
+    let b = self.body();
+    let out = super::run::execute(&cfg, move || b());
+    self.finish(sc, out)
+  }
   /// Smaller variants of a failing scenario (each must be a valid scenario).
   fn shrink(&self, sc: &Self::Sc) -> Vec<Self::Sc>;
   /// Re-seed the schedule part of a scenario (used while shrinking: a smaller program usually
@@ -77,6 +102,8 @@ pub struct LaneStats {
   pub failures_by_kind: BTreeMap<String, u64>,
   pub samples: Vec<Value>,
   pub wall_s: f64,
+  /// survey mode: signature -> (count, lowest run index)
+  pub survey: BTreeMap<String, (u64, u64)>,
   pub rule: String,
   pub components: Value,
 }
@@ -107,6 +134,9 @@ pub struct LaneCfg {
   pub replay_dir: String,
   /// violation filter: only violations of `property` are reported by this check
   pub shrink_budget: usize,
+  /// triage mode: never stop, no minimisation, count the distinct violation signatures of every
+  /// property instead
+  pub survey: bool,
 }
 
 fn scenario_size(v: &Value) -> usize {
@@ -135,64 +165,126 @@ pub fn run_lane<F: Family>(fam: Arc<F>, cfg: &LaneCfg, known: &super::known::Kno
     let batch_seed = cfg.batch_seed;
     let runs = cfg.runs;
     let stop_on_first = cfg.stop_on_first;
+    let survey = cfg.survey;
     handles.push(std::thread::spawn(move || {
-      let mut local = LaneStats::default();
-      loop {
-        let i = next.fetch_add(1, Ordering::SeqCst);
-        if i >= runs || (stop.load(Ordering::SeqCst) && i > first_hit.load(Ordering::SeqCst)) {
-          break;
-        }
-        let seed = run_seed(batch_seed, i);
-        let fam2 = fam.clone();
-        let (sc, ev) = super::run::on_fresh_thread(move || {
-          let mut rng = Rng::new(seed);
-          let sc = fam2.generate(&mut rng);
-          let ev = fam2.run(&sc, false);
-          (sc, ev)
-        });
-        local.runs += 1;
-        local.steps += ev.out.stats.steps;
-        local.switches += ev.out.stats.switches;
-        local.vtime_ns += ev.out.vtime_ns as u128;
-        if ev.nontrivial {
-          local.nontrivial += 1;
-          local.traces.insert(ev.out.stats.trace_hash);
-        }
-        for s in &ev.states {
-          local.states.insert(*s);
-        }
-        for (k, v) in &ev.out.faults {
-          *local.faults.entry(k.to_string()).or_insert(0) += v;
-        }
-        for (k, v) in &ev.out.probes {
-          *local.probes.entry(k.to_string()).or_insert(0) += v;
-        }
-        if let Some(f) = &ev.out.failure {
-          *local.failures_by_kind.entry(format!("{:?}", f.kind)).or_insert(0) += 1;
-        }
-        if i < 3 {
-          local.samples.push(json!({"run": i, "seed": seed, "scenario": serde_json::to_value(&sc).unwrap_or(Value::Null),
-            "steps": ev.out.stats.steps, "context_switches": ev.out.stats.switches}));
-        }
-        for v in ev.violations {
-          if v.property == property {
-            // a listed finding is reported once and never ends the search
-            let listed = known_w.matches(&v);
-            let mut h = hits.lock().unwrap();
-            if listed && h.iter().filter(|x| known_w.matches(&x.1)).count() >= 4 {
-              continue;
+      use std::cell::RefCell;
+      use std::rc::Rc;
+      let local = Rc::new(RefCell::new(LaneStats::default()));
+      // accounting of one evaluated run
+      let account = {
+        let local = local.clone();
+        let hits = hits.clone();
+        let first_hit = first_hit.clone();
+        let stop = stop.clone();
+        let known_w = known_w.clone();
+        let property = property.clone();
+        move |i: u64, seed: u64, sc: &F::Sc, ev: Evaluated| {
+          let mut local = local.borrow_mut();
+          local.runs += 1;
+          local.steps += ev.out.stats.steps;
+          local.switches += ev.out.stats.switches;
+          local.vtime_ns += ev.out.vtime_ns as u128;
+          if ev.nontrivial {
+            local.nontrivial += 1;
+            local.traces.insert(ev.out.stats.trace_hash);
+          }
+          for s in &ev.states {
+            local.states.insert(*s);
+          }
+          for (k, v) in &ev.out.faults {
+            *local.faults.entry(k.to_string()).or_insert(0) += v;
+          }
+          for (k, v) in &ev.out.probes {
+            *local.probes.entry(k.to_string()).or_insert(0) += v;
+          }
+          if let Some(f) = &ev.out.failure {
+            *local.failures_by_kind.entry(format!("{:?}", f.kind)).or_insert(0) += 1;
+          }
+          if i < 3 {
+            local.samples.push(json!({"run": i, "seed": seed, "scenario": serde_json::to_value(sc).unwrap_or(Value::Null),
+              "steps": ev.out.stats.steps, "context_switches": ev.out.stats.switches}));
+          }
+          if survey {
+            for v in &ev.violations {
+              let e = local.survey.entry(signature(v)).or_insert((0, i));
+              e.0 += 1;
+              e.1 = e.1.min(i);
             }
-            h.push((i, v, sc.clone()));
-            drop(h);
-            if !listed {
-              first_hit.fetch_min(i, Ordering::SeqCst);
-              if stop_on_first {
-                stop.store(true, Ordering::SeqCst);
+            return;
+          }
+          for v in ev.violations {
+            if v.property == property {
+              // a listed finding is reported once and never ends the search
+              let listed = known_w.matches(&v);
+              let mut h = hits.lock().unwrap();
+              if listed && h.iter().filter(|x| known_w.matches(&x.1)).count() >= 4 {
+                continue;
+              }
+              h.push((i, v, sc.clone()));
+              drop(h);
+              if !listed {
+                first_hit.fetch_min(i, Ordering::SeqCst);
+                if stop_on_first {
+                  stop.store(true, Ordering::SeqCst);
+                }
               }
             }
           }
         }
+      };
+      let claim = {
+        let next = next.clone();
+        let stop = stop.clone();
+        let first_hit = first_hit.clone();
+        move || -> Option<u64> {
+          let i = next.fetch_add(1, Ordering::SeqCst);
+          if i >= runs || (stop.load(Ordering::SeqCst) && i > first_hit.load(Ordering::SeqCst)) {
+            None
+          } else {
+            Some(i)
+          }
+        }
+      };
+      if fam.needs_fresh_thread() {
+        while let Some(i) = claim() {
+          let seed = run_seed(batch_seed, i);
+          let fam2 = fam.clone();
+          let (sc, ev) = super::run::on_fresh_thread(move || {
+            let mut rng = Rng::new(seed);
+            let sc = fam2.generate(&mut rng);
+            let ev = fam2.run(&sc, false);
+            (sc, ev)
+          });
+          account(i, seed, &sc, ev);
+        }
+      } else {
+        // session: many runs inside one shuttle Runner on this thread
+        let cur: Rc<RefCell<Option<(u64, u64, F::Sc)>>> = Rc::new(RefCell::new(None));
+        let cur2 = cur.clone();
+        let fam_n = fam.clone();
+        let fam_d = fam.clone();
+        let max_steps = fam.max_steps();
+        let stack = fam.stack_size();
+        let hooks = super::run::SessionHooks {
+          next: Box::new(move || {
+            let i = claim()?;
+            let seed = run_seed(batch_seed, i);
+            let mut rng = Rng::new(seed);
+            let sc = fam_n.generate(&mut rng);
+            let cfg = fam_n.begin(&sc, false);
+            *cur2.borrow_mut() = Some((i, seed, sc));
+            Some(cfg)
+          }),
+          done: Box::new(move |out| {
+            if let Some((i, seed, sc)) = cur.borrow_mut().take() {
+              let ev = fam_d.finish(&sc, out);
+              account(i, seed, &sc, ev);
+            }
+          }),
+        };
+        super::run::execute_many(max_steps, stack, hooks, fam.body());
       }
+      let local = std::mem::take(&mut *local.borrow_mut());
       let mut g = stats.lock().unwrap();
       g.runs += local.runs;
       g.steps += local.steps;
@@ -211,6 +303,11 @@ pub fn run_lane<F: Family>(fam: Arc<F>, cfg: &LaneCfg, known: &super::known::Kno
         *g.failures_by_kind.entry(k).or_insert(0) += v;
       }
       g.samples.extend(local.samples);
+      for (k, v) in local.survey {
+        let e = g.survey.entry(k).or_insert((0, u64::MAX));
+        e.0 += v.0;
+        e.1 = e.1.min(v.1);
+      }
     }));
   }
   let mut harness_errors = vec![];
